@@ -608,3 +608,19 @@ def returned_aggs(body, adt_suffix, variant):
         parts.extend(built_parts(rt))
     ids = {id(p[1]) for p in parts}
     return [x for x in mirlib.aggregates(body, adt_suffix, variant) if id(x[3]) in ids]
+
+
+def focus_body(crate, path_or_body, name=None, pat=None):
+    """the member of a function's family (the function itself or a closure nested in it — e.g. the body of an iterator
+    adapter that replaced a for loop) that contains the call(s) a rule is about"""
+    b = path_or_body if hasattr(path_or_body, 'path') else crate.body(path_or_body)
+    fam = [b] + [c for c in crate.bodies if c.kind == 'closure' and c.path.startswith(b.path + '::')]
+    hits = [x for x in fam if x.calls(pat=pat, name=name)]
+    if len(hits) != 1:
+        raise CheckError('ANCHOR-MISSING: call %r/%r in %s or its closures found in %d bodies' % (getattr(pat, 'pattern', pat), name, b.path, len(hits)))
+    return hits[0]
+
+
+def forigin(crate, body, operand):
+    """origin of an operand with closure captures resolved through the enclosing function(s)"""
+    return resolve_env(crate, body, body.origin(operand))
